@@ -247,6 +247,14 @@ class Check:
             frames = re.findall(r"(github\.com/csgura/fp[^\s(]*)\(", text)
             return dict(kind="data-race" if "DATA RACE" in text else "fatal-concurrent-map",
                         frames=frames[:6], report=text[:3000])
+        if re.search(r"^panic: ", text, re.M):
+            # the library itself panicked under real concurrency (an index computed from one snapshot used on another, ...):
+            # attributed to csgura/fp only when the goroutine that panicked is inside its code
+            first = text[text.index("panic: "):]
+            block = "\n\n".join(first.split("\n\n")[:2])       # the message and the stack of the goroutine that panicked
+            frames = re.findall(r"(github\.com/csgura/fp[^\s(]*)\(", block)
+            if frames:
+                return dict(kind="panic", frames=frames[:6], report=first[:3000])
         sys.stderr.write(text[-3000:])
         raise Infra("race run failed with exit %d" % p.returncode)
 
